@@ -14,7 +14,9 @@ SAN_ENV = {
     # a sanitizer report ends the process: the job announced last (flushed "Begin" line) is the culprit
     "ASAN_OPTIONS": "detect_leaks=0:abort_on_error=0:halt_on_error=1:allocator_may_return_null=1:"
                     "hard_rss_limit_mb=6000:max_allocation_size_mb=2000:detect_stack_use_after_return=0",
-    "UBSAN_OPTIONS": "print_stacktrace=1:halt_on_error=1",
+    # UBSan reports (once per source location and process) and continues; the driver writes a
+    # "qxv-case <id>" marker to stderr before every job, which attributes each report to a job
+    "UBSAN_OPTIONS": "print_stacktrace=1:halt_on_error=0",
 }
 
 
@@ -57,6 +59,24 @@ def _san_frames(stderr):
     return frames
 
 
+def _ub_reports(stderr, jobs_by_id):
+    """UBSan reports of one process, each attributed to the job announced last before it."""
+    res = []
+    case = None
+    lines = stderr.split("\n")
+    for i, ln in enumerate(lines):
+        if ln.startswith("qxv-case "):
+            case = ln[9:].strip()
+        elif "runtime error:" in ln:
+            m = re.search(r"([^/\s:]+):(\d+):\d+: runtime error: (.*)", ln)
+            text = re.sub(r"-?\d+", "N", m.group(3)) if m else ln
+            where = f"{m.group(1)}:{m.group(2)}" if m else "?"
+            frames = _san_frames("\n".join(lines[i + 1:i + 40]))
+            res.append({"job": jobs_by_id.get(case, {"id": case}), "kind": "ubsan", "sig": f"runtime error: {text} at {where}",
+                        "frames": frames, "report": [ln.strip()], "stderr_tail": "\n".join(lines[i:i + 12])})
+    return res
+
+
 def run_shard(chk, tag, shard_no, jobs, seeds_path, alarm, max_crashes=12):
     """Run one shard; after a crash restart behind the crashed job. Returns (lines, crashes)."""
     lines = []
@@ -71,7 +91,8 @@ def run_shard(chk, tag, shard_no, jobs, seeds_path, alarm, max_crashes=12):
                    opts={"seeds": seeds_path, "alarm": alarm}, env=SAN_ENV, check=False, timeout=6000)
         got = _read_trace(out)
         lines += got
-        if r["rc"] == 0 and not r["sanitizer"]:
+        crashes += _ub_reports(r["stderr"], {j.get("id"): j for j in rest})
+        if r["rc"] == 0:
             break
         bad_case = _unfinished(got)
         if bad_case is None:
@@ -80,12 +101,15 @@ def run_shard(chk, tag, shard_no, jobs, seeds_path, alarm, max_crashes=12):
         idx = next((i for i, j in enumerate(rest) if j.get("id") == bad_case), None)
         if idx is None:
             raise vf.MachineryError(f"crashed job {bad_case} not found in shard")
-        kind = "sanitizer" if r["sanitizer"] else ("timeout" if r["rc"] in (-14, 142) else f"exit{r['rc']}")
-        crashes.append({"job": rest[idx], "kind": kind, "sig": vf.san_signature(r), "frames": _san_frames(r["stderr"]),
-                        "report": r["sanitizer"][:3], "stderr_tail": r["stderr"][-1500:]})
+        asan = [x for x in r["sanitizer"] if "runtime error:" not in x]
+        kind = "sanitizer" if asan else ("timeout" if r["rc"] in (-14, 142) else f"exit{r['rc']}")
+        asan_sig = re.sub(r"0x[0-9a-f]+", "ADDR", asan[0])[:120] if asan else f"exit{r['rc']}"
+        tail = r["stderr"][r["stderr"].rfind("ERROR: AddressSanitizer"):] if asan else r["stderr"][-1500:]
+        crashes.append({"job": rest[idx], "kind": kind, "sig": asan_sig, "frames": _san_frames(tail),
+                        "report": asan[:3], "stderr_tail": tail[:1500]})
         rest = rest[idx + 1:]
         attempt += 1
-        if len(crashes) >= max_crashes:
+        if sum(1 for x in crashes if x["kind"] != "ubsan") >= max_crashes:
             chk.note(f"{tag}: shard {shard_no} stopped after {len(crashes)} crashes; {len(rest)} jobs not run")
             break
     return lines, crashes
